@@ -33,8 +33,13 @@ if os.path.exists(p):
 d = open(os.path.join(ROOT, "DESIGN.md")).read()
 lines = d.split("\n")
 out = []
+in_96 = False     # only the table under "### 9.6" is rewritten (the section-5 summary has rows of the same shape)
 for l in lines:
-    m = re.match(r"\| (C\d\d) \| ([^|]*) \| ([^|]*) \| (.*) \|$", l)
+    if l.startswith("### 9.6"):
+        in_96 = True
+    elif l.startswith("#"):
+        in_96 = False
+    m = in_96 and re.match(r"\| (C\d\d) \| ([^|]*) \| ([^|]*) \| (.*) \|$", l)
     if m:
         cid = m.group(1)
         e = json.load(open(os.path.join(ROOT, "evidence", cid + ".json")))
